@@ -27,7 +27,7 @@ from . import c04
 ID = 'C05'
 USES_INDEX = True
 USES_CHILD = True
-SOAK_EVERY = {'quick': 60, 'thorough': 100}
+SOAK_EVERY = {'quick': 45, 'thorough': 100}
 BUDGET = {
     'quick': {'runs': 1500, 'wall': 300, 'chunk': 25, 'shrink': 200},
     'thorough': {'runs': 60000, 'wall': 2400, 'chunk': 100, 'shrink': 400},
@@ -36,7 +36,7 @@ RULE = ('each run = one seeded acyclic model (half of them multi-sheet and '
         'with stale cached values) and a seeded schedule of (model copy, '
         'evaluator, cell) evaluations with repetitions over 1-3 copies and '
         '1-3 evaluators per copy, some created mid-schedule, optional '
-        'interrupt / transient / clock-jump faults; every 60th run (100th in thorough) is a soak '
+        'interrupt / transient / clock-jump faults; every 45th run (100th in thorough) is a soak '
         'of N identical evaluation rounds with object-count sampling; '
         'non-trivial = some formula cell is evaluated at least twice or by '
         'two evaluators; distinct = different sequence of (copy, evaluator, '
@@ -257,7 +257,32 @@ def gen_soak(rng, seed, tier):
         targets = [rng.choice(formulas) for _ in range(rng.randint(1, 4))]
     n = rng.choice([300, 450, 600]) if tier == 'quick' else rng.choice(
         [450, 900, 1500, 3000])
-    knobs = {'rounds': n, 'evaluators': rng.choice([1, 2]),
+    vary = None
+    used_inputs = sorted({d for t in targets
+                          for d in c04.closure(world, t)
+                          if world['level'].get(d, 1) == 0
+                          and d in world['cells']})
+    if used_inputs and rng.random() < 0.5:
+        vary = {'target': rng.choice(used_inputs),
+                'kind': rng.choice(['int', 'float', 'text', 'text'])}
+        # consumers of the varying input from several function families
+        # (numeric functions fed a text produce error values whose reason
+        # mentions the value)
+        sheet_, loc_ = vary['target'].split('!')
+        for k, f in enumerate(rng.sample(
+                ['=ABS({a})', '=ROUND({a},1)', '=LEFT({a},2)', '=LEN({a})',
+                 '=MOD({a},3)', '=IF({a}>0,1,2)', '=YEAR({a})',
+                 '=MATCH({a},{a}:{a},0)', '={a}&"x"', '=SUM({a})',
+                 '=SQRT({a})', '=UPPER({a})', '=INT({a})', '={a}*2'], 3)):
+            a = f'{sheet_}!V{k + 1}'
+            if a in world['cells']:
+                continue
+            world['cells'][a] = f.format(a=loc_)
+            world['deps'][a] = [vary['target']]
+            world['level'][a] = 1
+            world['order'].append(a)
+            targets.append(a)
+    knobs = {'rounds': n, 'evaluators': rng.choice([1, 2]), 'vary': vary,
              'interrupt_every': rng.choice([0, 0, 3]),
              'interrupt_frac': round(rng.uniform(0.1, 0.9), 2),
              'new_evaluator_every': rng.choice([0, 0, 50])}
@@ -562,7 +587,12 @@ def _noop_evaluate(addr):
     return None
 
 
-def soak_loop(evaluate_of, targets, rounds, interrupt_every, steps_for):
+def _drop_warning(*args, **kw):
+    return None
+
+
+def soak_loop(evaluate_of, targets, rounds, interrupt_every, steps_for,
+              before_round=None):
     """Runs `rounds` identical rounds; allocates nothing that survives an
     iteration.  Returns (object counts at N/3, 2N/3, N; bytes grown in the
     last third; running hash; calls; interrupts fired)."""
@@ -574,6 +604,8 @@ def soak_loop(evaluate_of, targets, rounds, interrupt_every, steps_for):
     first = []          # outcomes of round 1 (allocated before the 1st mark)
     changed = []        # first call whose outcome differs from round 1
     for r in range(1, rounds + 1):
+        if before_round is not None:
+            before_round(r)
         for i, t in enumerate(targets):
             calls += 1
             o = None
@@ -612,7 +644,7 @@ def soak_loop(evaluate_of, targets, rounds, interrupt_every, steps_for):
             if r == 1:
                 first.append(o)
             elif o is not None and first[i] is not None and \
-                    o != first[i] and not changed:
+                    o != first[i] and not changed and before_round is None:
                 changed.append([r, t, first[i][:300], o[:300]])
             o = None
         if r in marks:
@@ -673,9 +705,27 @@ def run_soak(case):
                 evs[r % nev] = Evaluator(model)
             return evs[r % nev].evaluate
 
-        counts, grown, digest, calls, fired, slots, blocks = soak_loop(
-            evaluate_of, targets, rounds, knobs.get('interrupt_every', 0),
-            lambda t: steps[t])
+        vary = knobs.get('vary')
+        before_round = None
+        if vary and vary['target'] in model.cells:
+            # one input takes a value it never had before in every round
+            # (the footprint must not remember them)
+            def before_round(r, a=vary['target'], k=vary['kind']):
+                model.set_cell_value(
+                    a, r * 7 if k == 'int' else r * 0.37 if k == 'float'
+                    else f'item {r}')
+            stats['soaks_with_varying_input'] = 1
+        import warnings
+        with warnings.catch_warnings():
+            # the interpreter's standard warning filters, as in a deployment
+            # (the harness silences warnings elsewhere); nothing is printed
+            warnings.resetwarnings()
+            warnings.simplefilter('default')
+            warnings.showwarning = _drop_warning
+            counts, grown, digest, calls, fired, slots, blocks = soak_loop(
+                evaluate_of, targets, rounds,
+                knobs.get('interrupt_every', 0),
+                lambda t: steps[t], before_round)
     changed = soak_loop.changed
     d_obj = counts[2] - counts[1]
     d_slots = slots[2] - slots[1]
